@@ -76,6 +76,7 @@ MEMBERS = ['C07_plane_intersection_on_both',
            'C07_flipped_set_lattice_error',
            'C07_base_vectors_outcomes',
            'C07_base_vectors_by_shape',
+           'C07_axial_planes_exact',
            'C07_hex_lattice_developed',
            'C07_develop_lattice_hex_is_tied',
            'C07_rhp_is_C03_rhp_linked',
@@ -252,20 +253,30 @@ class SurfaceSpy:
     def __enter__(self):
         from t4_geom_convert.Kernel.Volume import CellConversion as CC
         self.captured = []
-        self.real = CC.hexLatticeBaseVectors
+        # the name under which CellConversion calls it; when a rewrite calls it
+        # some other way nothing is captured and the surface-list ties simply
+        # have no cases from this conversion (tie:develophex still observes
+        # the call of develop_lattice)
+        self.real = getattr(CC, 'hexLatticeBaseVectors', None)
+        if self.real is None:
+            return self
 
         def spy(surfaces):
-            self.captured.append(
-                [((tuple(float(x) for x in pl[0]),
-                   tuple(float(x) for x in pl[1])), int(side))
-                 for pl, side in surfaces])
+            try:
+                self.captured.append(
+                    [((tuple(float(x) for x in pl[0]),
+                       tuple(float(x) for x in pl[1])), int(side))
+                     for pl, side in surfaces])
+            except Exception:       # pylint: disable=broad-except
+                pass
             return self.real(surfaces)
         CC.hexLatticeBaseVectors = spy
         return self
 
     def __exit__(self, *exc):
         from t4_geom_convert.Kernel.Volume import CellConversion as CC
-        CC.hexLatticeBaseVectors = self.real
+        if self.real is not None:
+            CC.hexLatticeBaseVectors = self.real
         return False
 
 
@@ -331,17 +342,42 @@ UNREACHABLE = [
 ]
 
 
-def anchored_functions():
-    from t4_geom_convert.Kernel import VectUtils as VU
-    from t4_geom_convert.Kernel.Volume import Lattice as LT
-    from t4_geom_convert.Kernel.Volume.CellConversion import CellConversion
-    from t4_geom_convert.Kernel.Surface import MacroBodies as MB
-    return [VU.pointInPlaneIntersection, VU.planeSide, VU.projectPointOnPlane,
-            VU.rotate, VU.planeParamsFromNormalAndPoint,
-            LT.areHexSidesAdjacent, LT.hexSortSides, LT.hexVertices,
-            LT.hexLatticeBaseVectors, LT.latticeVector,
-            CellConversion.develop_lattice, CellConversion.extract_surfaces,
-            MB.rhp]
+def anchored_functions(missing=None):
+    """The anchored functions that exist in the tree under test (a name that a
+    rewrite removed is recorded in `missing`, never an error)."""
+    import importlib
+    wanted = [
+        ('t4_geom_convert.Kernel.VectUtils',
+         ['pointInPlaneIntersection', 'planeSide', 'projectPointOnPlane',
+          'rotate', 'planeParamsFromNormalAndPoint']),
+        ('t4_geom_convert.Kernel.Volume.Lattice',
+         ['areHexSidesAdjacent', 'hexSortSides', 'hexVertices',
+          'hexLatticeBaseVectors', 'latticeVector']),
+        ('t4_geom_convert.Kernel.Volume.CellConversion',
+         ['CellConversion.develop_lattice', 'CellConversion.extract_surfaces']),
+        ('t4_geom_convert.Kernel.Surface.MacroBodies', ['rhp']),
+    ]
+    found = []
+    for modname, names in wanted:
+        try:
+            obj0 = importlib.import_module(modname)
+        except Exception:       # pylint: disable=broad-except
+            if missing is not None:
+                missing.append(modname)
+            continue
+        for name in names:
+            obj = obj0
+            for part in name.split('.'):
+                obj = getattr(obj, part, None)
+                if obj is None:
+                    break
+            if obj is None or not hasattr(getattr(obj, '__func__', obj),
+                                          '__code__'):
+                if missing is not None:
+                    missing.append(f'{modname}.{name}')
+                continue
+            found.append(obj)
+    return found
 
 
 def convert_watchdog(text, secs=30.0, trace=False):
@@ -422,7 +458,7 @@ def plane_card(sid, point, nrm):
     return {'id': sid, 'mn': 'p', 'params': nrm + [d], 'tr': None, 'bc': ''}
 
 
-def gen_deck(rng, style=None, force=None):
+def gen_deck(rng, style=None, force=None, twin=None):
     '''LAT=2 deck; every element of the FILL array gets its own universe (or 0,
     or the lattice's own universe). Returns (deck, meta).  `force` (0..4) fixes the
     placement variant and puts a 0 and an own-universe entry in the array (the
@@ -569,6 +605,64 @@ def gen_deck(rng, style=None, force=None):
     deck = {'title': 'C07 generated hexagonal lattice', 'cells': cells,
             'surfaces': surfaces, 'transforms': {}, 'materials': {},
             'data': []}
+    # a second LAT=2 cell bounded by the SAME plane cards listed in another
+    # admissible order (other first / third plane: other a1, a2), in its own
+    # universe, seen through a translated container: the index convention of
+    # each cell must follow ITS listing
+    twin_meta = None
+    if twin is None:
+        twin = style == 'planes' and force is None and rng.random() < 0.2
+    if twin and style == 'planes':
+        listing2 = gen.gen_listing(rng)
+        while listing2[0] == listing[0] and listing2[2] == listing[2]:
+            listing2 = gen.gen_listing(rng)
+        order = [listing.index(g) for g in listing2]
+        if has_caps:
+            order += [7, 6] if rng.random() < 0.5 else [6, 7]
+        lits2 = [lits[k] for k in order]
+        surfs2 = [surfs[k] for k in order]
+        vecs2 = gen.spec_vectors(hexa, listing2, surfs2)
+        while True:
+            ranges2 = [(rng.choice([-2, -1, 0]), rng.choice([0, 1, 2]))
+                       for _ in range(2)]
+            ranges2.append((rng.choice([-1, 0]), rng.choice([0, 1]))
+                           if has_caps else (0, 0))
+            n2 = 1
+            for lo, hi in ranges2:
+                n2 *= hi - lo + 1
+            if 3 <= n2 <= 12:
+                break
+        array2 = [40 + k for k in range(n2)]
+        shift = np.array([gen.clean(2 * radius + 3.0), 0.0, 0.0])
+        surfaces.append({'id': 901, 'mn': 's',
+                         'params': [gen.clean(v) for v in centre + shift]
+                         + [radius], 'tr': None, 'bc': ''})
+        cells.insert(-1, {'id': 5, 'mat': 0, 'rho': None, 'expr': S(-901),
+                          'imp': {'n': 1}, 'u': 0, 'lat': None,
+                          'fill': {'u': 2, 'tr': deckmod.make_tr(shift)},
+                          'trcl': None})
+        cells.insert(-1, {'id': 6, 'mat': 0, 'rho': None,
+                          'expr': ('*',) + tuple(lits2),
+                          'imp': {'n': 1}, 'u': 2, 'lat': 2,
+                          'fill': {'ranges': ranges2, 'array': array2,
+                                   'tr': None}, 'trcl': None,
+                          'lat_vectors': [[float(x) for x in v] for v in vecs2],
+                          'lat_centre': [float(x) for x in centre]})
+        for k, univ in enumerate(array2):
+            cells.insert(-1, {'id': 200 + 2 * k, 'mat': 0, 'rho': None,
+                              'expr': S(-910), 'imp': {'n': 1}, 'u': univ,
+                              'lat': None, 'fill': None, 'trcl': None})
+            cells.insert(-1, {'id': 201 + 2 * k, 'mat': 0, 'rho': None,
+                              'expr': S(910), 'imp': {'n': 1}, 'u': univ,
+                              'lat': None, 'fill': None, 'trcl': None})
+        cells[-1]['expr'] = ('*', S(900), S(901))
+        twin_meta = {'listing': listing2, 'ranges': ranges2,
+                     'vectors': [[float(x) for x in v] for v in vecs2],
+                     'centre': [float(x) for x in centre], 'radius': radius,
+                     'r_fill': r_fill,
+                     'container_centre': [float(x) for x in centre + shift],
+                     'move': {'O': [float(x) for x in shift],
+                              'R': np.eye(3).tolist()}}
     # the same prism placed through a coordinate transformation: the plane
     # cards written in an auxiliary frame (TRn on the cards), the lattice cell
     # moved by TRCL, or the lattice universe placed by a fill transformation
@@ -576,6 +670,8 @@ def gen_deck(rng, style=None, force=None):
     roll = rng.random()
     if force is not None:
         roll = [0.9, 0.05, 0.15, 0.25, 0.35][force]
+    if twin_meta is not None:
+        roll = 0.9
     if roll < 0.12 and style == 'planes':
         moved = 'surface-tr'
         trf = deckmod.random_tr(rng)
@@ -620,7 +716,7 @@ def gen_deck(rng, style=None, force=None):
             'array': array, 'vectors': [[float(x) for x in v] for v in vecs],
             'centre': [float(x) for x in centre], 'radius': radius,
             'r_fill': r_fill, 'caps': has_caps, 'moved': moved,
-            'move': move,
+            'move': move, 'twin': twin_meta,
             'tilt': bool(hexa['caps'] and hexa['caps']['tilt'])}
     return deck, meta
 
@@ -629,6 +725,7 @@ def deck_points(rng, meta, n_random):
     '''Sample points: uniform in the container, element centres (inside the
     filler sphere), points just across every element border.'''
     centre = np.array(meta['centre'])
+    cont = np.array(meta.get('container_centre', meta['centre']))
     vecs = [np.array(v) for v in meta['vectors']]
     radius = meta['radius']
     pts = []
@@ -637,7 +734,7 @@ def deck_points(rng, meta, n_random):
             q = np.array([rng.uniform(-1, 1) for _ in range(3)])
             if q @ q <= 1:
                 break
-        pts.append(centre + 0.98 * radius * q)
+        pts.append(cont + 0.98 * radius * q)
     ranges = meta['ranges']
     idx_ranges = [range(lo - 1, hi + 2) for lo, hi in ranges[:len(vecs)]]
     for idx in np.ndindex(*[len(r) for r in idx_ranges]):
@@ -654,8 +751,10 @@ def deck_points(rng, meta, n_random):
         origin = np.array(meta['move']['O'])
         rot = np.array(meta['move']['R'])
         pts = pts[:n_random] + [origin + rot @ p for p in pts[n_random:]]
-    return [p for p in pts
-            if np.linalg.norm(p - centre) < 0.995 * radius]
+    pts = [p for p in pts if np.linalg.norm(p - cont) < 0.995 * radius]
+    if meta.get('twin'):
+        pts += deck_points(rng, meta['twin'], n_random // 2)
+    return pts
 
 
 def check_deck(deck, meta, t4, points, eps=1e-6):
@@ -669,7 +768,7 @@ def check_deck(deck, meta, t4, points, eps=1e-6):
     ev = t4eval.Evaluator(t4, eps=eps)
     checked, failures = 0, []
     deck_ids = {c['id'] for c in deck['cells']}
-    lattice_id = next(c['id'] for c in deck['cells'] if c.get('lat'))
+    lattice_ids = {c['id'] for c in deck['cells'] if c.get('lat')}
     for p in points:
         try:
             chain = ref.locate(np.array(p, float))
@@ -700,7 +799,7 @@ def check_deck(deck, meta, t4, points, eps=1e-6):
             continue
         prov = geomcheck.parse_provenance(t4.volumes[owners[0]]['comment'])
         got = prov[0][0] if prov else owners[0]
-        if leaf == lattice_id:
+        if leaf in lattice_ids:
             # element filled with the lattice cell's own material: the
             # provenance names the generated copy of the lattice cell, never a
             # cell of the deck
@@ -787,32 +886,40 @@ def run(res, tier, seed, proofs_ok):
     '''Ties and sweep; the first 250 admissible prisms, every malformed one and
     the first 30 conversions run under a line tracer restricted to the
     anchored functions: every line a LAT=2 input can reach must be executed.'''
-    import c02_cov
     global COV
-    cov = COV = c02_cov.LineCov(anchored_functions())
+    cov, cov_missing = None, []
+    try:
+        import c02_cov
+        cov = COV = c02_cov.LineCov(anchored_functions(cov_missing))
+    except Exception as exc:       # pylint: disable=broad-except
+        cov = COV = None
+        cov_missing.append(f'coverage tracer not available: {exc!r}')
     try:
         _run(res, tier, seed, proofs_ok)
     finally:
         COV = None
         COV_ON[0] = False
-    total, missing = cov.missing(UNREACHABLE)
-    import linecache
-    from t4_geom_convert.Kernel.Volume import CellConversion as ccmod
-    # the raise that follows the 'at least n bounds' message (see UNREACHABLE)
-    missing = [m for m in missing
-               if not (m[2] == 'raise LatticeError(msg)' and 'at least' in
-                       linecache.getline(ccmod.__file__, m[1] - 1))]
-    res.obligation('coverage: the generated inputs execute every reachable line '
-                   f'of the anchored functions ({total} lines of '
-                   f'{len(cov.codes)} code objects)', not missing,
-                   f'never executed: {missing[:6]}')
-    if missing:
-        res.violation('harness-error',
-                      'generated inputs no longer reach these lines of the '
-                      f'anchored code (strengthen the generators): {missing[:8]}',
-                      {'theorem_or_correspondence': 'coverage',
-                       'input': {'lines': [list(m) for m in missing[:20]]}},
-                      found_input=False)
+    # line coverage is information only: it never fails the check and never raises
+    try:
+        if cov is not None:
+            import linecache
+            total, missing = cov.missing(UNREACHABLE)
+            try:
+                from t4_geom_convert.Kernel.Volume import CellConversion as ccmod
+                missing = [m for m in missing
+                           if not (m[2] == 'raise LatticeError(msg)' and 'at least'
+                                   in linecache.getline(ccmod.__file__, m[1] - 1))]
+            except Exception:       # pylint: disable=broad-except
+                pass
+            res.obligation('coverage: the generated inputs execute every '
+                           'reachable line of the anchored functions '
+                           f'({total} lines of {len(cov.codes)} code objects)',
+                           not missing, f'never executed: {missing[:6]}; '
+                           f'anchored names not present: {cov_missing}')
+        else:
+            res.count('coverage skipped: ' + '; '.join(cov_missing)[:200])
+    except Exception as exc:       # pylint: disable=broad-except
+        res.count(f'coverage pass failed: {exc!r}'[:200])
 
 
 def _run(res, tier, seed, proofs_ok):
@@ -987,6 +1094,11 @@ def _run(res, tier, seed, proofs_ok):
                 tour = closed_tour([k for k, v in sout[1].items()
                                     if v is not None])
                 allowed = (('ok', 'EZeroDiv') if tour else ('ELoop', 'EZeroDiv'))
+                if fault in (None, 'swap12', 'swap23', 'flip_side', 'flip_two',
+                             'far_plane'):
+                    # side planes still parallel to one axis, caps across it:
+                    # C07_axial_planes_exact leaves a single outcome
+                    allowed = ('ok',) if tour else ('ELoop',)
                 got_cls = out[1] if out[0] == 'err' else 'ok'
                 res.count(f'shape: {"closed tour" if tour else "no tour"} -> '
                           + got_cls)
@@ -1250,8 +1362,19 @@ def _run(res, tier, seed, proofs_ok):
     for num in range(n_decks):
         if deck_hangs >= 2:
             break
-        deck, meta = (gen_deck(rng, style='planes', force=num) if num < 5
-                      else gen_deck(rng))
+        if num < 5:
+            deck, meta = gen_deck(rng, style='planes', force=num)
+        elif num == 5:
+            # corpus deck (fixed): two LAT=2 cells bounded by the same plane
+            # cards listed in two different admissible orders
+            deck, meta = gen_deck(random.Random(70707), style='planes',
+                                  twin=True)
+        elif num == 6:
+            deck, meta = gen_deck(rng, style='planes', twin=True)
+        else:
+            deck, meta = gen_deck(rng)
+        if meta.get('twin'):
+            res.count('deck with two lattices on the same planes')
         text = deckmod.render(deck)
         res.seen(text)
         res.count('deck:' + meta['style'])
